@@ -144,10 +144,11 @@ CHECKS["C20"] = dict(
           "the fan-out checked under C05. Real TCP between processes and uvicorn workers are not in the loop."),
     text=("Notifier.tla models the byte streams symbol-wise with a transport that may deliver any non-empty prefix, and transcribes "
           "the read primitive the code uses; TLC checks C20_Intact, C20_AtMostOnce, C20_SenderOrder, C20_AllDelivered for every "
-          "chunking of every stream and one peer drop (MC_Notifier; with read(32) as found it produced the counterexample that "
+          "chunking of every stream, one peer drop and one (re)connection (MC_Notifier; with read(32) as found it produced the counterexample that "
           "led to the repair). TLC-simulated behaviours drive the real NotifyServer.handle_notify and NotifyClient.connect over "
           "in-memory streams (symbol-aligned and with byte jitter); the look-ups and pushes of every worker are judged by TLC "
-          "against the C20 formulas (Notifier_Trace.tla). An end-to-end variant joins two real DBStorage instances on one SQLite "
+          "against the C20 formulas (Notifier_Trace.tla). Workers may drop and (re)connect (Join): whoever is connected in the end must "
+          "have looked up everything announced while it was connected (C20_StayersServed). An end-to-end variant joins two real DBStorage instances on one SQLite "
           "file by the real server and client classes: the receiving worker's subscribers must be pushed each announced event."),
     technique="TLA+ Notifier.tla model-checked by TLC over all chunkings; TLC-simulated chunkings replayed on the real notifier classes; look-ups validated by TLC")
 
@@ -247,7 +248,9 @@ CHECKS["C19"] = dict(
           "raises; a connection kept open keeps answering; others are unaffected; on end all subscriptions are dropped and all tasks "
           "finish). Each frame of the grammar is sent on one connection of web.start_client followed by REQ and EVENT probes (the EVENT probe "
           "must be accepted), interleaved with a well-behaved connection holding kind- and tag-filter subscriptions whose transcript is compared with the same run without the junk, on both backends; TLC judges "
-          "the observations (Junk_Trace.tla)."),
+          "the observations (Junk_Trace.tla). The grammar also contains well-formed commands pipelined in a hostile order (a subscription id "
+          "re-used while its query runs, CLOSE / re-REQ bursts, duplicates) and peers that stop reading while answers pile up for them and "
+          "then hang up (answers queued by the handler, by query tasks, by notify tasks)."),
     technique="TLA+ Junk.tla contract evaluated by TLC on recorded handler runs over a grammar of typed frame mutations; differential run for the second connection")
 
 CHECKS["C11"] = dict(
